@@ -9,7 +9,27 @@ atoms(expr) over-approximates the set of things an expression's value may be com
   ("ctor", path)         a struct literal / variant construction
 Because it never misses a dependency, *absence* of an atom is positive evidence.
 """
+import json
+import os
 from facts import norm, call_name
+
+# Parameter names as of the reference tree: rules refer to parameters by these canonical names, looked up by *position*, so that
+# renaming a parameter in /repo does not disturb any rule (a changed arity falls back to the current names).
+_CANON = None
+
+
+def canon_params(fn):
+    global _CANON
+    if _CANON is None:
+        try:
+            _CANON = json.load(open(os.path.join(os.path.dirname(os.path.dirname(os.path.abspath(__file__))), "tables", "param_names.json")))
+        except Exception:
+            _CANON = {}
+    names = _CANON.get(fn.path)
+    cur = [x.get("name") if x.get("k") == "Binding" else None for x in fn.params]
+    if names and len(names) == len(cur):
+        return names
+    return cur
 
 
 # adaptors whose closure argument only *selects* among the receiver's elements: data flows from the receiver alone
@@ -27,14 +47,17 @@ class Prov:
         self.src = {}      # local id -> list of (source expr node | None, extra atoms)
         self.params = {}   # local id -> name
         self._memo = {}
-        for p in fn.params:
-            self._bind_param(p)
+        canon = canon_params(fn)
+        for i, p in enumerate(fn.params):
+            self._bind_param(p, canon[i] if i < len(canon) else None)
         self._scan(fn.body)
 
     # ------------------------------------------------------------- binding scan
-    def _bind_param(self, pat):
-        for n in _pat_bindings(pat):
-            self.params[n["local"]] = n["name"]
+    def _bind_param(self, pat, canon=None):
+        bs = _pat_bindings(pat)
+        for n in bs:
+            # a plain `name: T` parameter gets its canonical (reference-tree) name; destructured parameters keep their own
+            self.params[n["local"]] = canon if (canon and len(bs) == 1 and pat.get("k") == "Binding") else n["name"]
 
     def _bind(self, pat, src, extra=frozenset()):
         """bind every Binding in `pat` to source expression `src`"""
